@@ -1008,6 +1008,15 @@ func c11LE64(v int64) string {
 	return string(b)
 }
 
+// ttlHash of the authenticators since 8647e06
+func c11TTLHash(ttl *int64) string {
+	if ttl == nil {
+		return "\x00"
+	}
+
+	return "\x01" + c11LE64(*ttl)
+}
+
 func c11RenderPiece(p c11Piece, q c11Req, vals []c11KV, hasVals, hasReq bool) string {
 	switch p.K {
 	case "lit":
@@ -1104,8 +1113,12 @@ func c11ProposeKey(c c11Conf, q c11Req, ho, vo []string, tab *c11Sha) string {
 	case "intro":
 		pre.WriteString(c.Ep.URL.text())
 		pre.WriteString(q.Cred)
+		pre.WriteString(c11TTLHash(c.TTL))
 	case "gen":
 		pre.WriteString(q.Cred)
+
+		v := c.ttlVal()
+		pre.WriteString(c11TTLHash(&v))
 	default:
 		var vals []c11KV
 		for _, v := range c.Values {
